@@ -722,6 +722,9 @@ class C03Check(StreamCheckBase):
                             r[1] = max(r[1], 1.0) if len(r) > 1 else 0.0
                 e["rows"] = rows
             inj.append(e)
+        if f.chance(0.15) and len(chunks) > 2:
+            # the report of some chunks is lost (in both worlds): a query whose answer never reaches update
+            sc["drop_updates"] = sorted(f.sample(range(len(chunks)), f.pick([1, 1, 2, max(1, len(chunks) // 4)])))
         if f.chance(0.15):
             # the history starts with an update that no query preceded (a caller replaying a logged chunk): the
             # spurious queries placed before it make query(), not update(), the call that lazily initialises
@@ -802,6 +805,7 @@ class C03Check(StreamCheckBase):
                 inj_by.setdefault((e["at"], e["slot"]), []).append(e)
         pos = 0
         last_inj_pos = -1
+        drop = set(sc.get("drop_updates", []))
         uf = sc.get("update_first")
         if uf:
             rows0 = np.array(uf["rows"], dtype=float)
@@ -840,7 +844,13 @@ class C03Check(StreamCheckBase):
                     if err:
                         return drv, err
                     last_inj_pos = pos
-            # commit
+            # commit (unless the caller lost this chunk's report: the answer to a query is never reported back)
+            if k in drop:
+                ctx.fault("drop_update") if with_injections else None
+                record.append(("update-dropped", k, None))
+                pos += c
+                ctx.sim_time += c
+                continue
             snap_u0 = snapshot(drv.obj) if with_injections else None
             try:
                 drv.update_rows(rows, q, u)
@@ -941,6 +951,10 @@ class C03Check(StreamCheckBase):
         return bool(res["faults"]) and p.get("granted_after_last_injection", 0) > 0 and (p.get("spurious_between_query_and_update", 0) > 0 or p.get("lazy_init_by_query", 0) > 0)
 
     def shrink(self, sc):
+        if sc.get("drop_updates"):
+            c = copy.deepcopy(sc)
+            del c["drop_updates"]
+            yield c
         yield from self.shrink_common(sc)
         if sc.get("update_first"):
             c = copy.deepcopy(sc)
